@@ -157,6 +157,15 @@ pub fn build_proof(r: &mut Rng, pool: &Pool, tab: &mut SigTab, s: &SSet, domain:
         18 => { // one signature missing somewhere before the last signed position
                 for i in 0..n { sigs[i] = Some(sign(tab, skey(i), &d)); }
                 if n > 1 { let k = r.below((n - 1) as u64) as usize; sigs[k] = None; } label = "gap_before_last"; }
+        19 => { // every quorum member "signs", but only the FIRST signature is genuine: the last one in the quorum is corrupted
+                for &i in &quorum { sigs[i] = Some(sign(tab, skey(i), &d)); }
+                if quorum.len() >= 2 { let i = *quorum.last().unwrap(); if let Some(sg) = sigs[i].as_mut() { sg[9] ^= 0x10; } label = "invalid_last_in_quorum"; } else { label = "minimal_quorum"; } }
+        20 => { // the first member's genuine signature replayed at every other position
+                if n > 0 { let s0 = sign(tab, skey(0), &d); for i in 0..n { sigs[i] = Some(s0.clone()); } }
+                label = if n >= 2 { "first_replayed_everywhere" } else { "all_sign" }; }
+        21 => { // first genuine, the rest garbage
+                if n > 0 { sigs[0] = Some(sign(tab, skey(0), &d)); for i in 1..n { sigs[i] = Some(vec![0x42u8; 64]); } }
+                label = if n >= 2 { "first_genuine_rest_garbage" } else { "all_sign" }; }
         _ => { for &i in &quorum { sigs[i] = Some(sign(tab, skey(i), &d)); }
                // a bad option tag
                label = "minimal_quorum"; }
@@ -211,7 +220,7 @@ impl G {
             return n;
         }
         Msg { chain: small_name(r, &["ethereum", "avalanche", "axelar", ""]), id: format!("id-{}", r.below(12)).into_bytes(),
-              src: small_name(r, &["0xabc", "0xITS", "src"]), contract: self.users[r.below(self.users.len() as u64) as usize].to_vec(),
+              src: small_name(r, &["0xabc", "0xITS", "src", "0xAbCd"]), contract: self.users[r.below(self.users.len() as u64) as usize].to_vec(),
               ph: keccak(&[r.below(6) as u8]) }
     }
 }
@@ -275,7 +284,7 @@ pub fn run(seed: u64, ntraces: usize) {
                 if r.chance(1, 15) { raw.push(7); mlabel = "batch_trailing_byte"; }
                 if r.chance(1, 20) && !raw.is_empty() { raw.truncate(raw.len() - 1); mlabel = "batch_truncated"; }
                 let (slabel, set) = g.pick_set(&mut r);
-                let variant = if r.chance(1, 2) { r.below(2) } else { r.below(19) };
+                let variant = if r.chance(1, 2) { r.below(2) } else { r.below(22) };
                 let G { pool, tab, domain, .. } = &mut g;
                 let p = build_proof(&mut r, pool, tab, &set, domain, 0, &raw, variant);
                 let caller = r.pick(&callers).clone();
@@ -290,7 +299,7 @@ pub fn run(seed: u64, ntraces: usize) {
                 let mut raw = newset.encode(npad);
                 if forced_rot.is_none() && r.chance(1, 20) { raw.push(0); }
                 let (slabel, set) = if let Some((_, which, _)) = forced_rot { let e = g.sets.len(); if which == 1 && e >= 2 { ("previous", g.sets[e - 2].clone()) } else { ("latest", g.sets[e - 1].clone()) } } else { g.pick_set(&mut r) };
-                let variant = if forced_rot.is_some() { 1 } else if r.chance(2, 3) { r.below(2) } else { r.below(19) };
+                let variant = if forced_rot.is_some() { 1 } else if r.chance(2, 3) { r.below(2) } else { r.below(22) };
                 let G { pool, tab, domain, .. } = &mut g;
                 let p = build_proof(&mut r, pool, tab, &set, domain, 1, &raw, variant);
                 let caller = if let Some((ci, _, _)) = forced_rot { callers[ci].clone() } else if r.chance(1, 2) { g.operator.clone() } else { r.pick(&callers).clone() };
@@ -303,7 +312,9 @@ pub fn run(seed: u64, ntraces: usize) {
                 let (chain, id, src, contract, ph) = if !g.sent.is_empty() && r.chance(5, 6) {
                     let m = &g.sent[r.below(g.sent.len() as u64) as usize]; (m.chain.clone(), m.id.clone(), m.src.clone(), m.contract.clone(), m.ph.clone())
                 } else { (b"ethereum".to_vec(), b"id-0".to_vec(), b"0xabc".to_vec(), g.users[0].to_vec(), keccak(&[0])) };
-                let (label, caller, src2, ph2) = match r.below(8) {
+                let (label, caller, src2, ph2) = match r.below(10) {
+                    8 | 9 => { let s: Vec<u8> = src.iter().map(|b| if b.is_ascii_alphabetic() { b ^ 0x20 } else { *b }).collect();      // same letters, other case: a different source address
+                               ("source_other_case", VMAddress::new(contract.clone().try_into().unwrap()), s, ph) }
                     0 => ("wrong_caller", g.users[(r.below(3)) as usize].clone(), src, ph),
                     1 => { let mut s = src.clone(); s.push(b'z'); ("wrong_source", VMAddress::new(contract.clone().try_into().unwrap()), s, ph) }
                     2 => { let mut p = ph.clone(); p[3] ^= 2; ("wrong_payload_hash", VMAddress::new(contract.clone().try_into().unwrap()), src, p) }
@@ -328,7 +339,8 @@ pub fn run(seed: u64, ntraces: usize) {
                 if !g.sent.is_empty() {
                     let m = &g.sent[r.below(g.sent.len() as u64) as usize];
                     if r.chance(1, 2) {
-                        let (chain, id, src, contract, ph) = (m.chain.clone(), m.id.clone(), m.src.clone(), m.contract.clone(), m.ph.clone());
+                        let (chain, id, mut src, contract, ph) = (m.chain.clone(), m.id.clone(), m.src.clone(), m.contract.clone(), m.ph.clone());
+                        if r.chance(1, 3) { src = src.iter().map(|b| if b.is_ascii_alphabetic() { b ^ 0x20 } else { *b }).collect(); }
                         let st = g.w.call0(&caller, &g.gw, "isMessageApproved", vec![chain.clone(), id.clone(), src.clone(), contract.clone(), ph.clone()]);
                         (op_json("isApproved", "view".to_string(), &caller, now, json!({"chain": hx(&chain), "id": hx(&id), "src": hx(&src), "contract": hx(&contract), "ph": hx(&ph)})), st)
                     } else {
